@@ -109,5 +109,55 @@ ExpH(g) == IF g.tform = "none" THEN 0 ELSE g.hh
 ExpM(g) == IF g.tform \in {"none", "h"} THEN 0 ELSE g.mi
 ExpS(g) == IF g.tform \in {"hms-b", "hms-e"} THEN g.ss ELSE 0
 
-\* the zone text the dumper writes back for a zero offset is the same spelling with a '+' sign
+
+
+\* ---- durations -----------------------------------------------------------------------------
+\* gd: [neg, wk (weeks form), w, y, mo, d, h, mi, s (non-negative integers; -1 = unit absent), ds (decimal digits of
+\*      the LAST time unit present, <<>> = none), sep]
+UnitText(n, ch) == IF n < 0 THEN <<>> ELSE Dec(n) \o <<ch>>
+LastUnit(gd) == IF gd.s >= 0 THEN "s" ELSE IF gd.mi >= 0 THEN "mi" ELSE IF gd.h >= 0 THEN "h" ELSE "none"
+UnitDecText(n, ch, gd, u) ==
+  IF n < 0 THEN <<>> ELSE Dec(n) \o (IF LastUnit(gd) = u /\ Len(gd.ds) > 0 THEN <<gd.sep>> \o DigitCodes(gd.ds) ELSE <<>>) \o <<ch>>
+DurText(gd) ==
+  (IF gd.neg THEN <<CHMinus>> ELSE <<>>) \o <<CHP>> \o
+  (IF gd.wk THEN Dec(gd.w) \o <<CHW>>
+   ELSE UnitText(gd.y, CHY) \o UnitText(gd.mo, CHM) \o UnitText(gd.d, CHD) \o
+        (IF gd.h < 0 /\ gd.mi < 0 /\ gd.s < 0 THEN <<>>
+         ELSE <<CHT>> \o UnitDecText(gd.h, CHH, gd, "h") \o UnitDecText(gd.mi, CHM, gd, "mi") \o UnitDecText(gd.s, CHS, gd, "s")))
+\* what the text denotes: years, months and the exact length <<days, seconds, micro>> (decimals to micro-units of the unit)
+Z0(n) == IF n < 0 THEN 0 ELSE n
+DurTextValue(gd) ==
+  LET sg == IF gd.neg THEN -1 ELSE 1
+      f6 == IF Len(gd.ds) = 0 THEN 0 ELSE Micro6(gd.ds)      \* micro-units of the last unit
+      lu == LastUnit(gd)
+      \* the fraction in microseconds: hours x 3600, minutes x 60 (f6 < 10^6, so 3600 * f6 needs two limbs)
+      \* hours: f6 = a * 1000 + b micro-hours = (a * 36) * 10^5 + b * 3600 microseconds (kept below 2^31 limb by limb)
+      ha == (f6 \div 1000) * 36
+      hr == (ha % 10) * 100000 + (f6 % 1000) * 3600
+      fsec == CASE lu = "h" -> (ha \div 10) + (hr \div MEG) [] lu = "mi" -> ((f6 * 60) \div MEG) [] OTHER -> 0
+      fus  == CASE lu = "h" -> hr % MEG [] lu = "mi" -> ((f6 * 60) % MEG) [] lu = "s" -> f6 [] OTHER -> 0
+      len == IF gd.wk THEN <<7 * gd.w, 0, 0>>
+             ELSE Norm3(<<Z0(gd.d), Z0(gd.h) * 3600 + Z0(gd.mi) * 60 + Z0(gd.s) + fsec, fus>>)
+  IN [y |-> sg * (IF gd.wk THEN 0 ELSE Z0(gd.y)), mo |-> sg * (IF gd.wk THEN 0 ELSE Z0(gd.mo)), len |-> IF gd.neg THEN Neg3(len) ELSE len]
+
+
+\* ---- strftime / strptime (POSIX subset) ----------------------------------------------------
+\* a format is a sequence of tokens [d |-> directive letter as a string | "lit" | "bad", c |-> code point for lit/bad]
+Supported == {"Y", "m", "d", "j", "H", "M", "S", "F", "X", "z", "s"}
+\* text POSIX strftime gives for the civil date-time of a whole-second point (year 0000-9999), token by token
+TokText(m, p, tk) ==
+  LET c == CivilDate(m, p)  o == OrdOf(m, LocalDay(m, p))
+      hh == p.sod \div 3600  mi == (p.sod % 3600) \div 60  ss == p.sod % 60
+      ymd == Digits(c[1], 4) \o <<CHMinus>> \o Digits(c[2], 2) \o <<CHMinus>> \o Digits(c[3], 2)
+      hms == Digits(hh, 2) \o <<CHColon>> \o Digits(mi, 2) \o <<CHColon>> \o Digits(ss, 2)
+  IN CASE tk.d = "lit" -> <<tk.c>>
+       [] tk.d = "Y" -> Digits(c[1], 4) [] tk.d = "m" -> Digits(c[2], 2) [] tk.d = "d" -> Digits(c[3], 2)
+       [] tk.d = "j" -> Digits(o[2], 3)
+       [] tk.d = "H" -> Digits(hh, 2) [] tk.d = "M" -> Digits(mi, 2) [] tk.d = "S" -> Digits(ss, 2)
+       [] tk.d = "F" -> ymd [] tk.d = "X" -> hms
+       [] tk.d = "z" -> ZoneText(p.zh, p.zm, "hhmm")
+       [] OTHER -> <<>>
+RECURSIVE StrfText(_, _, _, _)
+StrfText(m, p, toks, k) == IF k > Len(toks) THEN <<>> ELSE TokText(m, p, toks[k]) \o StrfText(m, p, toks, k + 1)
+HasTok(toks, ds) == \E k \in 1..Len(toks) : toks[k].d \in ds
 =============================================================================
